@@ -676,6 +676,10 @@ class ExcludeRegionState(object):  # pylint: disable=too-many-instance-attribute
             # Update axis position and convert local var from logical units to millimeters/minute
             extruderPosition = eAxis.setLogicalPosition(extruderPosition)
             deltaE = extruderPosition - priorE
+            if (abs(deltaE) <= 1e-13 * max(abs(extruderPosition), abs(priorE))):
+                # The same E value given in different units (G20/G21) may differ by float
+                # round-off, which is neither an extrusion nor a retraction
+                deltaE = 0
         else:
             deltaE = 0
 
